@@ -784,6 +784,34 @@ class Engine(object):
                 raise Raised(self.resolve_exc(fref, ename), line)
         for o in self.modifies_objects(ex, contract, env):
             ex.note_write(o)
+        topc = self.contracts.get(ex.top_fq) if ex.top_fq else None
+        evname = (topc.get("callee_events") or {}).get(fq) if topc else None
+        if evname is not None:
+            # event view of a callee (two-level argument): its precondition was just checked and its exceptions
+            # branched on; what its own contract proves about the bytes it appends is not needed here, only THAT
+            # it ran, with which arguments and in which order.  The fields it may change are havoced.
+            names = [p.arg for p in fref.node.args.args if p.arg != "self"]
+            ctx.__dict__.setdefault("trace", []).append((evname,) + tuple(env[n] for n in names))
+            ctx.tags.add("event view: %s recorded as one ghost event (its byte-level contract is proved separately)"
+                         % fq.split("mingus.")[-1])
+            keep = ()
+            if isinstance(evname, dict):
+                keep = tuple(evname.get("assume") or ())
+                evname = evname["name"]
+                ctx.trace[-1] = (evname,) + ctx.trace[-1][1:]
+            env2 = dict(env)
+            for nm, expr in (contract.get("old") or {}).items():
+                env2[nm] = self.snapshot(ex.spec_eval(expr, env2))
+            for path, t in (contract.get("havoc") or {}).items():
+                self.havoc_path(ex, env2, path, t)
+            for (nm, e) in self.norm_named(contract.get("ensures"), "post"):
+                if nm in keep:      # the state clauses of the callee the caller's argument needs (assuming less is sound)
+                    ex.ctx.assume_mode = True
+                    try:
+                        ex.ctx.assume(ex.spec_bool(e, env2))
+                    finally:
+                        ex.ctx.assume_mode = False
+            return self.fresh_of_type(ex, contract.get("returns", "None"), "ret_" + fq.rsplit(".", 1)[-1], env)
         cases = contract.get("cases")
         if cases:
             chosen = None
@@ -992,7 +1020,7 @@ class Engine(object):
                         parts = path.split(".")
                         o = env[parts[0]]
                         for pp in parts[1:-1]:
-                            o = o.fields[pp]
+                            o = o.items[int(pp)] if isinstance(o, PList) else o.fields[pp]
                         o.fields[parts[-1]] = self.fresh_of_type(ex, ty, path, env)
                 if isinstance(split_expr, dict) and split_expr.get("module_state"):
                     for path, expr in split_expr["module_state"].items():
